@@ -50,6 +50,11 @@ def attr_sets(tier):
     for n in rng:
         out.append([('a', 'x' * n), ('b', 'y z')])
     out.append([('a', 'x' * 40), ('b', 'y' * 40), ('c', None), ('d', '"' * 5)])
+    # attribute NAMES are part of the content too: names differing only in case, prefixed and look-alike names
+    out.append([('id', '1'), ('ID', '2')])
+    out.append([('viewBox', 'a'), ('viewbox', 'b'), ('VIEWBOX', LONG)])
+    out.append([('a', '1'), ('A', '2'), ('c:a', '3'), ('glib:a', '4'), ('a-b', '5'), ('a_b', '6'), ('a.b', '7')])
+    out.append([('A', LONG), ('a', LONG)])
     return out
 
 
